@@ -1172,21 +1172,21 @@ Proof.
   pose proof (Hk CLiveness) as HkV. cbn [cap_value cap_max] in HkS, HkL, HkC, HkV.
   split.
   - intros H1 H2 H3 H4 H5 H6 H7. split.
-    + intros Hlt. apply no_limit_all_within. intros m o Ho. rewrite Hobs in Ho. inversion Ho; subst o.
-      destruct m; cbn [metric_cap cap_value]; try lia.
+    + intros Hlt. apply no_limit_iff. intros m. unfold trips. rewrite Hobs. apply exceeds_false_iff.
+      destruct m; cbv beta iota delta [metric_cap cap_value]; try lia.
       destruct (Z.le_gt_cases ((Z.of_nat n + 1) * (Z.of_nat n + 3)) (max_summary_events k)) as [|Hgt]; [assumption|].
       apply Hthr in Hgt; lia.
     + intros Hge. apply first_limit_order_lemma. cbn [l_metric l_observed l_limit].
       split; [|split; [|split]].
-      * apply trips_iff. eexists. split; [apply Hobs|]. cbn [metric_cap cap_value]. apply Hthr; lia.
+      * apply trips_iff. eexists. split; [apply Hobs|]. cbv beta iota delta [metric_cap cap_value]. apply Hthr; lia.
       * intros m Hm. unfold trips. rewrite Hobs. apply exceeds_false_iff.
-        destruct m; cbn [metric_cap cap_value metric_index] in *; lia.
+        destruct m; cbv beta iota delta [metric_cap cap_value metric_index] in *; lia.
       * apply Hobs.
       * reflexivity.
   - intros Hgt. apply first_limit_order_lemma. cbn [l_metric l_observed l_limit].
     split; [|split; [|split]].
-    + apply trips_iff. eexists. split; [apply Hobs|]. cbn [metric_cap cap_value]. lia.
-    + intros m Hm. destruct m; cbn [metric_index] in Hm; lia.
+    + apply trips_iff. eexists. split; [apply Hobs|]. cbv beta iota delta [metric_cap cap_value]. lia.
+    + intros m Hm. destruct m; cbv beta iota delta [metric_index] in Hm; lia.
     + apply Hobs.
     + reflexivity.
 Qed.
